@@ -61,6 +61,16 @@ def run(tier, seed):
             states += r["distinct"]
             trans += r["generated"]
             design_stats.append({"config": consts(c), "distinct": r["distinct"], "generated": r["generated"]})
+    for atomic, want in (("TRUE", "No error has been found"), ("FALSE", "Invariant CacheCoherent is violated")):
+        d = gen._prepare(SPEC, "GenCache.cfg", {"Atomic": atomic})
+        r = common.run_tlc_with_files(d, "GenCache", "GenCache.cfg", {}, timeout=600, heap="2g")
+        if want not in common._tail(r["out"], 20000):
+            if atomic == "TRUE":
+                rep.violation({"property": PROP, "model": "GenCache.tla", "tlc": common._tail(r["out"], 3000)}, "TLC found the generic cache model incoherent")
+            else:
+                raise common.Infra("control failed: the non-atomic generic cache model must produce a stale cache entry")
+        states += r["distinct"]
+        trans += r["generated"]
     d = gen._prepare(SPEC, "ConcDesign.cfg", consts((2, 2, 2, 1, 1), Guarded="FALSE"))
     r = common.run_tlc_with_files(d, "Conc", "ConcDesign.cfg", {}, timeout=3000, workers=2, heap="6g")
     if "Invariant EndState is violated" not in common._tail(r["out"], 20000):
@@ -144,6 +154,8 @@ def run(tier, seed):
             if k == "tables":
                 m = min(m, 40)
             stress.append({"id": len(stress) + 1, "kind": k, "n": n, "m": m, "cap": cap})
+    for _ in range(3):
+        stress.append({"id": len(stress) + 1, "kind": "gencache", "n": 2, "m": 1, "cap": 0})
     procs = [1, 2, 16] if quick else [1, 2, 3, 4, 8, 16]
     findings = [f for f in common.load_findings(PROP) if f.get("status") == "open"]
     hit = {}
@@ -193,7 +205,7 @@ def run(tier, seed):
         e = sev[b["id"]]
         rep.violation({"property": PROP, "law": b["law"], "event": e},
                       f"free running {e['kind']} program ({e['n']} routines x {e['m']} operations, channel of {e['cap']}, GOMAXPROCS={e['gomaxprocs']}): {b['law']} wrong: "
-                      f"status {e['st'][:100]} x={e['x']} slots={e['slots']} bad={e['bad'][:3]}")
+                      f"status {e['st'][:100]} x={e['x']} slots={e['slots']} bad={e['bad'][:3]} gen={e.get('gen')}")
     for key, lst in races.items():
         if key == "no slip frame":
             continue
